@@ -142,6 +142,8 @@ pub struct Obs
     pub inv: Inv,
     /// None when the invocation did not return (crash injected, panic, deadlock)
     pub result: Option<Result<(), ErrSum>>,
+    /// what the user is shown for a failed invocation: `Display` of the error value, as main.rs prints it
+    pub error_text: Option<String>,
     pub panics: Vec<String>,
     pub deadlock: Option<String>,
     pub aborted: Option<String>,
@@ -816,9 +818,11 @@ impl World
                 if !p.ends_with(".rules") { eprintln!("    = {} {:?} exec={} mtime={}", p, String::from_utf8_lossy(&f.data[..f.data.len().min(24)]), f.exec, f.mtime % 100000); }
             }
         }
+        let error_text = match &out.result { Some(Err(e)) => Some(format!("{}", e)), _ => None };
         Obs
         {
             inv,
+            error_text,
             result: out.result.map(|r| r.map_err(|e| summarize(&e))),
             panics: out.panics,
             deadlock: out.deadlock,
